@@ -11,7 +11,8 @@ Definition mkd (id body : nat) (bt : bool) (meth : list nat) (paths : list strin
   {| d_id := id; d_uid := 10 * id + body; d_body := body; d_bt := bt; d_meth := meth; d_paths := map sl paths |}.
 
 (** the repository over the transcribed tree, along a history *)
-Definition t_run (ops : list op) : trepo := fold_left (fun st o => fst (t_step no_fix st o)) ops t_empty_repo.
+Definition t_run_fx (fx : fixes) (ops : list op) : trepo := fold_left (fun st o => fst (t_step fx st o)) ops t_empty_repo.
+Definition t_run := t_run_fx no_fix.
 Local Notation run := (Model.run no_fix).
 Local Notation fresh := (Spec.fresh no_fix).
 
